@@ -91,6 +91,71 @@ Fixpoint ctx_eqb (a b : ctx) : bool :=
   | _, _ => false
   end.
 
+(* Python's == on the generated values: bool/int/float compare numerically (floats are
+   quarters), lists elementwise, dicts as unordered maps (keys are distinct) *)
+Definition num_of (v : value) : option Z :=
+  match v with
+  | VBool b => Some (4 * Z_of_bool b)%Z
+  | VInt z => Some (4 * z)%Z
+  | VFloat q => Some q
+  | _ => None
+  end.
+
+Fixpoint pyeqb (a b : value) {struct a} : bool :=
+  match a with
+  | VNone => match b with VNone => true | _ => false end
+  | VBool _ | VInt _ | VFloat _ =>
+      match num_of a, num_of b with Some x, Some y => Z.eqb x y | _, _ => false end
+  | VStr x => match b with VStr y => String.eqb x y | _ => false end
+  | VRegex x => match b with VRegex y => String.eqb x y | _ => false end
+  | VCmp _ _ => false
+  | VList l =>
+      match b with
+      | VList m =>
+          (fix go (l m : list value) : bool :=
+             match l, m with
+             | [], [] => true
+             | x :: l', y :: m' => pyeqb x y && go l' m'
+             | _, _ => false
+             end) l m
+      | _ => false
+      end
+  | VSet l =>
+      match b with
+      | VSet m =>
+          (fix go (l m : list value) : bool :=
+             match l, m with
+             | [], [] => true
+             | x :: l', y :: m' => pyeqb x y && go l' m'
+             | _, _ => false
+             end) l m
+      | _ => false
+      end
+  | VDict l =>
+      match b with
+      | VDict m =>
+          Nat.eqb (List.length l) (List.length m)
+          && (fix go (l : list (string * value)) : bool :=
+                match l with
+                | [] => true
+                | (k, x) :: l' => match aget k m with Some y => pyeqb x y | None => false end && go l'
+                end) l
+      | _ => false
+      end
+  end.
+
+(* ---- function level: _get_reference_activated_flow_instance ----
+   parameters, the instances of the flow in state.flow_id_states order (is it a reference
+   instance?, its `arguments`), the StartFlow event arguments, and the index of the instance
+   the implementation returned *)
+Definition check_actref (c : list (param cexpr) * list (bool * ctx) * ctx * option nat) : bool :=
+  let '(ps, insts, ev, x) := c in
+  match find_reference cexpr ceval pyeqb ps ev insts 0, x with
+  | Some (Some i), Some j => Nat.eqb i j
+  | Some None, None => true
+  | _, _ => false
+  end.
+
 (* ---- function level: create_flow_instance + _start_flow on one event_arguments dict ---- *)
 
 Inductive xbound := XShared | XTooMany | XBound (args c : ctx).
@@ -133,7 +198,8 @@ Inductive outcome :=
 Definition outcome_code (o : outcome) : Z :=
   match o with ODone => 0 | OReturned => 1 | OWaiting => 2 | OStuck => 3 | OFailed => 4 | OCrash => 5 | OFuel => 6 end.
 
-Record xstate := mkX { x_st : mstate; x_uid : nat; x_out : list (Z * ctx) (* reversed *) }.
+(* x_act: the activated reference instances (flow, uid) in creation order *)
+Record xstate := mkX { x_st : mstate; x_uid : nat; x_out : list (Z * ctx) (* reversed *); x_act : list (string * nat) }.
 
 Definition the_reserved (f : string) : reserved :=
   mkReserved (VStr f) (VStr "(uid)") (VStr "(src)") (VStr "(head)") (VStr "(hier)").
@@ -153,6 +219,37 @@ Definition match_with_args (fm : form) : bool :=
   | _ => started_match_call_args_start
   end.
 
+(* `activate f(..)` when the flow already has activated reference instances
+   (_process_internal_events_without_default_matchers + _get_reference_activated_flow_instance):
+   if one has the same parameters no instance is created; the reference instance's FlowStarted
+   event (its own `arguments`, flow_instance_uid := the new uid) is sent to the caller, which
+   proceeds iff its FlowStarted match accepts it.  None = not this path (ordinary start). *)
+Inductive reuse_result := RKeyError | RStuck | RContinue.
+
+Definition reuse_activated (fm : form) (f : string) (fd : flowdef) (R : reserved)
+           (d : list (string * cexpr)) (i : nat) (X : xstate) : option reuse_result :=
+  if negb (is_activate fm) then None else
+  match eval_ctx (x_st X) i with
+  | None => None
+  | Some ec =>
+      let ev := start_event_args R true (eval_args cexpr ceval ec d) in
+      let insts := filter (fun fu => String.eqb (fst fu) f) (x_act X) in
+      match find_reference cexpr ceval pyeqb (f_params fd) ev
+                           (map (fun fu => (true, m_args (x_st X) (snd fu))) insts) 0 with
+      | None => Some RKeyError
+      | Some None => None
+      | Some (Some n) =>
+          match nth_error insts n with
+          | None => None
+          | Some fu =>
+              let pat := started_pattern (match_with_args fm) R (eval_args cexpr ceval ec d) in
+              let rcv := out_event_args (r_instance_uid R) (r_flow_id R) (m_args (x_st X) (snd fu))
+                                        [("flow_instance_uid", r_instance_uid R)] in
+              Some (if started_ok pat rcv then RContinue else RStuck)
+          end
+      end
+  end.
+
 Fixpoint exec (fuel : nat) (P : prog) (X : xstate) (i : nat) (body : list stmt) : xstate * outcome :=
   match fuel with
   | O => (X, OFuel)
@@ -163,22 +260,22 @@ Fixpoint exec (fuel : nat) (P : prog) (X : xstate) (i : nat) (body : list stmt) 
           match s with
           | SAssign x e =>
               match step cexpr ceval (x_st X) (OAssign cexpr i x e) with
-              | Ok st' => exec fuel' P (mkX st' (x_uid X) (x_out X)) i rest
+              | Ok st' => exec fuel' P (mkX st' (x_uid X) (x_out X) (x_act X)) i rest
               | Err _ => (X, OFailed)
               end
           | SGlobal x =>
               match step cexpr ceval (x_st X) (OGlobal cexpr i x) with
-              | Ok st' => exec fuel' P (mkX st' (x_uid X) (x_out X)) i rest
+              | Ok st' => exec fuel' P (mkX st' (x_uid X) (x_out X) (x_act X)) i rest
               | Err _ => (X, OFailed)
               end
           | SEcho t kvs =>
               match eval_ctx (x_st X) i with
-              | Some ec => exec fuel' P (mkX (x_st X) (x_uid X) ((t, eval_args cexpr ceval ec kvs) :: x_out X)) i rest
+              | Some ec => exec fuel' P (mkX (x_st X) (x_uid X) ((t, eval_args cexpr ceval ec kvs) :: x_out X) (x_act X)) i rest
               | None => (X, OFailed)
               end
           | SReturn e =>
               match step cexpr ceval (x_st X) (OReturn cexpr i e) with
-              | Ok st' => (mkX st' (x_uid X) (x_out X), OReturned)
+              | Ok st' => (mkX st' (x_uid X) (x_out X) (x_act X), OReturned)
               | Err _ => (X, OFailed)
               end
           | SWait => (X, OWaiting)
@@ -198,6 +295,13 @@ Fixpoint exec (fuel : nat) (P : prog) (X : xstate) (i : nat) (body : list stmt) 
                   let callee := x_uid X in
                   let R := the_reserved f in
                   let d := parse_args cexpr args 0 [] in
+                  match reuse_activated fm f fd R d i X with
+                  | Some r => match r with
+                              | RKeyError => (X, OCrash)
+                              | RStuck => (X, OStuck)
+                              | RContinue => exec fuel' P X i rest
+                              end
+                  | None =>
                   match step cexpr ceval (x_st X)
                              (OStart cexpr i callee (f_params fd) (f_rets fd) R (is_activate fm) d) with
                   | Err ETooMany => (X, OCrash)
@@ -205,7 +309,8 @@ Fixpoint exec (fuel : nat) (P : prog) (X : xstate) (i : nat) (body : list stmt) 
                   | Ok st1 =>
                       (* the callee runs until it finishes or waits; only then is its
                          FlowStarted event matched by the caller *)
-                      let '(X2, out) := exec fuel' P (mkX st1 (S (x_uid X)) (x_out X)) callee (f_body fd) in
+                      let acts := if is_activate fm then (x_act X ++ [(f, callee)])%list else x_act X in
+                      let '(X2, out) := exec fuel' P (mkX st1 (S (x_uid X)) (x_out X) acts) callee (f_body fd) in
                       match out with
                       | OCrash => (X2, OCrash)
                       | OFuel => (X2, OFuel)
@@ -230,7 +335,7 @@ Fixpoint exec (fuel : nat) (P : prog) (X : xstate) (i : nat) (body : list stmt) 
                                   | FAwait, Some x =>
                                       match step cexpr ceval (x_st X2)
                                                  (OAwaitAssign cexpr i callee (r_instance_uid R) (r_flow_id R) x) with
-                                      | Ok st3 => exec fuel' P (mkX st3 (x_uid X2) (x_out X2)) i rest
+                                      | Ok st3 => exec fuel' P (mkX st3 (x_uid X2) (x_out X2) (x_act X2)) i rest
                                       | Err _ => (X2, OFailed)
                                       end
                                   | _, _ => exec fuel' P X2 i rest
@@ -238,6 +343,7 @@ Fixpoint exec (fuel : nat) (P : prog) (X : xstate) (i : nat) (body : list stmt) 
                               end
                           end
                       end
+                  end
                   end
               end
           end
@@ -258,7 +364,7 @@ Definition run_full (P : prog) : list (Z * ctx) * outcome * list ctx * ctx :=
   match aget "main" P with
   | None => ([], OFailed, [], [])
   | Some fd =>
-      let '(X, out) := exec 400 P (mkX m_init 1 []) 0 (f_body fd) in
+      let '(X, out) := exec 400 P (mkX m_init 1 [] []) 0 (f_body fd) in
       (rev (x_out X), out, final_ctxs X, final_globals X)
   end.
 
